@@ -76,9 +76,18 @@ impl C13Case {
 
     /// The direct line typed between a break and CONT: it reads, lists or saves; the one that assigns
     /// (an INPUT of its own) uses a variable no generated program mentions.
-    fn inspect_line(&self) -> Option<&'static str> {
+    fn inspect_line(&self) -> Option<String> {
         if !self.inspect {
             return None;
+        }
+        if self.sched_seed % 8 == 1 && (self.sched_seed / 8) % 2 == 0 {
+            // an inspection line that is one character too long for the 1024-character line buffer:
+            // it is refused (?LINE BUFFER OVERFLOW) and must leave the stopped program continuable
+            let mut l = String::from("PRINT N%;A;S$:REM ");
+            while l.chars().count() < 1025 {
+                l.push('X');
+            }
+            return Some(l);
         }
         const LINES: [&str; 8] = [
             "PRINT N%;A;S$",
@@ -90,12 +99,12 @@ impl C13Case {
             "PRINT A:SAVE \"SNAP\":REM",
             "PRINT LEN(S$);:PRINT",
         ];
-        Some(LINES[(self.sched_seed % 8) as usize])
+        Some(LINES[(self.sched_seed % 8) as usize].to_string())
     }
 
     fn complete(&self, w: &mut World, plan: &Plan) -> (Completion, Vec<Tok>) {
         let inspect = self.inspect_line();
-        let c = run_to_completion(w, "RUN", &self.replies, &self.keys, plan, inspect, self.max_instr, 300);
+        let c = run_to_completion(w, "RUN", &self.replies, &self.keys, plan, inspect.as_deref(), self.max_instr, 300);
         let probes = run_probes(w, &probe_lines(&self.prog));
         (c, probes)
     }
@@ -412,7 +421,7 @@ impl Case for C13Case {
             .set("replies", self.replies.clone())
             .set("keys", self.keys.clone())
             .set("focus", format!("{:?}", self.focus))
-            .set("inspect_line_between_break_and_cont", self.inspect_line().unwrap_or("(none)"))
+            .set("inspect_line_between_break_and_cont", self.inspect_line().map(|l| if l.len() > 80 { format!("{}... ({} characters)", &l[..40], l.len()) } else { l }).unwrap_or_else(|| "(none)".to_string()))
             .set("layout_member_breaks_only_at_column_0", self.layout_member)
             .set("post_cont_schedule_seed", self.sched_seed)
             .set("every_interrupt_delivered_twice", self.entropy % 4 == 1)
